@@ -28,13 +28,14 @@ var extraNames = []string{"close", "faccessat", "faccessat2", "access", "dup", "
 
 // Call is one parsed system call.
 type Call struct {
-	Pid    int
-	Name   string
-	Args   []string
-	Ret    string // "?" when killed / never finished
-	Killed bool
-	Inj    bool // "(INJECTED)" mark of strace's fault injection
-	Line   int
+	Pid     int
+	Name    string
+	Args    []string
+	Ret     string // "?" when killed / never finished
+	Killed  bool
+	Inj     bool // "(INJECTED)" mark of strace's fault injection
+	Line    int
+	EndLine int // line on which the call finished (differs from Line for unfinished/resumed calls)
 
 	// resolved
 	Path   string // main path operand (absolute), or path of the fd operand
@@ -91,6 +92,7 @@ func parseStrace(path string) ([]*Call, error) {
 			}
 			tail := rest[i+len(" resumed>"):]
 			finishCall(c, pendingArgs[pid]+tail)
+			c.EndLine = ln + 1
 			delete(pending, pid)
 			delete(pendingArgs, pid)
 			continue
@@ -99,7 +101,7 @@ func parseStrace(path string) ([]*Call, error) {
 		if i <= 0 {
 			continue
 		}
-		c := &Call{Pid: pid, Name: rest[:i], Line: ln + 1}
+		c := &Call{Pid: pid, Name: rest[:i], Line: ln + 1, EndLine: ln + 1}
 		body := rest[i+1:]
 		calls = append(calls, c)
 		if strings.HasSuffix(body, "<unfinished ...>") {
